@@ -343,6 +343,7 @@ package dawn
 //@ ghost n_modload int threadlocal = 0
 
 //@ struct dawn.module
+//@   stable label writers (*dawn.Project).loadModule
 //@   protected_by m: loading, loaded
 //@   cond cond guards m
 //@   both m: loaded-is-final: old(this.loaded) ==> this.loaded
@@ -392,6 +393,15 @@ package dawn
 
 // loadModule: a module is executed only by the call that created and registered it; every other
 // caller announces the edge it is about to wait on and then waits.
+// The registry key of a module names its file: every label handed to Project.loadModule has an
+// explicit file name (a label without one means BUILD.dawn and would register the same file under a
+// second key, executing it twice).
+//@ func (*dawn.module).loadModule
+//@   requires m != nil && proj != nil && m.label != nil && proj.modules != nil
+//@   requires no-locks: !holds(proj.m) && (forall x: *dawn.module :: !holds(x.m))
+//@   callsite loadModule: assert key-names-its-file: $2 != nil && $2.Name != ""
+//@   modifies heap, n_modload, announced
+
 // load announces the execution (the ghost counter n_modload counts ModuleLoading events) and, on
 // EVERY return - also when the module's environment cannot be set up - has published the module as
 // loaded, with its error: a module that is registered but never published blocks every other
